@@ -259,7 +259,8 @@ func (r *Run) Finish() int {
 			fmt.Printf("KNOWN-FINDING: property=%s %s: %s (reproduced by %d case(s) in this run)\n", r.Prop, k.ID, k.Description, knownHit[k.ID])
 			knownRep = append(knownRep, map[string]interface{}{"id": k.ID, "cases": knownHit[k.ID]})
 		} else {
-			knownRep = append(knownRep, map[string]interface{}{"id": k.ID, "cases": 0, "note": "no longer reproduced in this run; suppresses nothing"})
+			fmt.Printf("KNOWN-FINDING: property=%s %s: %s (listed; no case of this run reproduced it)\n", r.Prop, k.ID, k.Description)
+			knownRep = append(knownRep, map[string]interface{}{"id": k.ID, "cases": 0, "note": "not reproduced in this run; suppresses nothing"})
 		}
 	}
 	shapeNames := make([]string, 0, len(r.shapes))
